@@ -22,7 +22,10 @@ func derivePublicChild(parentPublicKey, chainCode []byte, childIndex uint32) (ch
 		return
 	}
 
-	data := append(parentPublicKey, serialize32(childIndex)...)
+	// BIP32 defines the HMAC input as serP(K) || ser32(i), where serP is the compressed encoding,
+	// whatever encoding the caller used. Serializing the parsed point also yields a fresh slice,
+	// so the index is never appended onto the caller's buffer.
+	data := append(ecc.SerializePointCompressed(pubX, pubY), serialize32(childIndex)...)
 	l := hmacSha512(chainCode, data)
 	lLeft, lRight := l[:32], l[32:]
 
